@@ -503,6 +503,28 @@ def scen_element(run: Run, rec: dict, extra: dict, En: float, P: np.ndarray, PH:
     # dtype-carrying classes must not keep the float32 placeholder; dtype-less ones (Marker, BPM) are skipped here
     takes_dtype = rec["cls"] not in ("Marker", "BPM")
     run.check("ctor", el, () if takes_dtype else PH)
+    if dtype == F64 and takes_dtype:
+        # forced dtype: float32 parameter tensors, `dtype=torch.float64` requested.  Everything the element stores must be
+        # what it stores when it is handed the same numbers as float64 tensors — i.e. the cast comes first and all derived
+        # settings (pole-face angles of an RBend, exit gap ...) are computed in float64
+        try:
+            a = E._build(rec, F64, extra=extra, tensor=lambda x: torch.tensor(x, dtype=F32))
+            b = E._build(rec, F64, extra=extra, tensor=lambda x: torch.tensor(x, dtype=F32).to(F64))
+        except Exception:  # noqa: BLE001  (a class that refuses mixed dtypes is the dtype audit's business)
+            a = b = None
+        if a is not None:
+            run.ran.add("forced-ctor")
+            run.check("forced-ctor", a, PH, granular=False)
+            ta = {pth: t for pth, t, _ in tensors_of(a) if is_float(t)}
+            tb = {pth: t for pth, t, _ in tensors_of(b) if is_float(t)}
+            for k in sorted(ta):
+                if k in tb and ta[k].shape == tb[k].shape and not torch.equal(torch.nan_to_num(ta[k].to(F64)), torch.nan_to_num(tb[k].to(F64))):
+                    leaf = k.split(":")[-1] if ":" in k else k
+                    run.findings.append((f"C12|forced-dtype|{rec['cls']}.ctor|{leaf}",
+                                         f"{rec['cls']}(float32 tensors, dtype=float64) stores {leaf} = {ta[k].reshape(-1)[:2].tolist()}, "
+                                         f"the same numbers given as float64 tensors give {tb[k].reshape(-1)[:2].tolist()}: "
+                                         "a derived setting was computed before the cast to float64"))
+                    break
     run.check("minimal-ctor", run.stage("minimal-ctor", lambda: _minimal(rec, dtype)), PH)
     run.check("clone", run.stage("clone", lambda: el.clone()), PH)
     run.check("split", run.stage("split", lambda: el.split(torch.tensor(0.37 * max(float(rec.get("L", 1.0)), 0.1), dtype=dtype))), PH)
